@@ -2,6 +2,7 @@ package cx
 
 import (
 	"fmt"
+	"reflect"
 	"strconv"
 	"strings"
 
@@ -131,24 +132,65 @@ func pickMods(r *hx.Rng) [3]bool {
 	return [3]bool{}
 }
 
+// ContainerChecks: also attach container-level checks of the other kinds — Refine (always true / always false) and
+// Overwrite (identity) — to the containers that take size checks. Set by the C02 / C05 harnesses.
+var ContainerChecks = false
+
 func pickSize(r *hx.Rng) ([]string, string) {
+	var cs []string
+	var name string
 	switch r.Intn(6) {
 	case 0:
-		return []string{"min 1"}, ".Min(1)"
+		cs, name = []string{"min 1"}, ".Min(1)"
 	case 1:
-		return []string{"max 2"}, ".Max(2)"
+		cs, name = []string{"max 2"}, ".Max(2)"
 	case 2:
-		return []string{"eq 2"}, ".Length(2)"
+		cs, name = []string{"eq 2"}, ".Length(2)"
 	case 3:
-		return []string{"min 1", "max 3"}, ".Min(1).Max(3)"
+		cs, name = []string{"min 1", "max 3"}, ".Min(1).Max(3)"
 	}
-	return nil, ""
+	if ContainerChecks && r.Chance(30) {
+		for range 1 + r.Intn(2) {
+			var c, n string
+			switch r.Intn(5) {
+			case 0:
+				c, n = "custom 0", ".Refine(false)"
+			case 1:
+				c, n = "custom 1", ".Refine(true)"
+			default:
+				c, n = "overwrite", ".Overwrite(id)"
+			}
+			if r.Bool() { // before or after the size checks
+				cs, name = append([]string{c}, cs...), n+name
+			} else {
+				cs, name = append(cs, c), name+n
+			}
+		}
+	}
+	return cs, name
 }
 
 type sizer[S any] interface {
 	Min(int, ...any) S
 	Max(int, ...any) S
 	Length(int, ...any) S
+}
+
+// callWithFn calls z.<method>(fn) where fn is built for the method's own parameter type: `Refine(func(R) bool)`
+// answering the constant, `Overwrite(func(R) R)` the identity.
+func callWithFn(z any, method string, constant bool) any {
+	m := reflect.ValueOf(z).MethodByName(method)
+	if !m.IsValid() {
+		panic(fmt.Sprintf("%T has no %s", z, method))
+	}
+	fnT := m.Type().In(0)
+	fn := reflect.MakeFunc(fnT, func(args []reflect.Value) []reflect.Value {
+		if method == "Refine" {
+			return []reflect.Value{reflect.ValueOf(constant)}
+		}
+		return []reflect.Value{args[0]}
+	})
+	return m.Call([]reflect.Value{fn})[0].Interface()
 }
 
 func applySize[S sizer[S]](z S, size []string) S {
@@ -163,6 +205,10 @@ func applySize[S sizer[S]](z S, size []string) S {
 			z = z.Max(n)
 		case "eq":
 			z = z.Length(n)
+		case "custom":
+			z = callWithFn(z, "Refine", n == 1).(S)
+		case "overwrite":
+			z = callWithFn(z, "Overwrite", false).(S)
 		}
 	}
 	return z
